@@ -30,7 +30,7 @@ func propIncarnation(t *rapid.T) {
 	n := rapid.IntRange(2, 8).Draw(t, "ops")
 	var ops []op
 	for i := 0; i < n; i++ {
-		ops = append(ops, op{rapid.IntRange(0, 8).Draw(t, "op"), rapid.IntRange(0, 2).Draw(t, "old")})
+		ops = append(ops, op{rapid.IntRange(0, 10).Draw(t, "op"), rapid.IntRange(0, 2).Draw(t, "old")})
 	}
 	bname := netkit.NetNodeName("c14i")
 	b1, err := startB(s.hub, bname)
@@ -125,6 +125,19 @@ func propIncarnation(t *rapid.T) {
 				rerr = a.SendResponse(tg.pid, gen.Ref{Node: bname, Creation: tg.pid.Creation, ID: [3]uint64{1, 2, 3}}, marker)
 			case 8:
 				rerr = a.SendImportant(tg.pid, marker)
+			case 9:
+				if isOld {
+					// an exit signal for a process of the previous incarnation must not reach the
+					// process that happens to have the same id now
+					rerr = a.SendExit(tg.pid, errors.New("exit meant for the old incarnation"))
+				} else {
+					rerr = a.Send(tg.pid, marker)
+				}
+			case 10:
+				rerr = a.Monitor(tg.alias)
+				if rerr == nil {
+					a.Demonitor(tg.alias)
+				}
 			}
 		})
 		if e != nil {
@@ -151,6 +164,9 @@ func propIncarnation(t *rapid.T) {
 				problems = append(problems, fmt.Sprintf("op %d addressed to the OLD incarnation was handled by %s of the new incarnation", i, ev.Proc))
 			}
 		}
+	}
+	if _, err := b2.ProcessInfo(neu.pid); err != nil {
+		problems = append(problems, fmt.Sprintf("the process of the new incarnation is gone (%v) although nothing was addressed to it that terminates it", err))
 	}
 	if len(problems) > 0 {
 		t.Fatalf("%s\nold=%v new=%v", strings.Join(problems, "\n"), old.pid, neu.pid)
